@@ -25,6 +25,7 @@ structure St where
   walk : CState := ⟨Fog.init, [], []⟩   -- state of the concrete fog walk (`Model/Walk.lean`)
   rr : Hash × HexD.Db := (blankRoot keccak, [])   -- root and database of the raw-level run (`HexRaw.rawOp` threaded)
   fw : HexFree.FWorld := HexFree.FWorld.init keccak false   -- the tree-free executor and its `squash_changes` (`Model/HexFree.lean`)
+  walkDR : HexD.CStateD := ⟨Fog.init, [], []⟩  -- the same walk driven one whole step (with the retry on a stale entry) at a time: `cstepDR`
   walkD : HexD.CStateD := ⟨Fog.init, [], []⟩   -- the raw-level fog walk (`Model/WalkD.lean`): cache of raw node bodies, reads the db
   deriving Inhabited
 
@@ -224,6 +225,31 @@ def step (st : St) (cmd : String) (args : List String) : St × String :=
             | none => "-"
           else "-"
         ({ st with walkD := cs'' }, s!"fog {showF cs'.fog} met {newMet}")
+    | _, _ => bad
+  -- the raw-level walk step WITH the caller's retry (`cstepDR`): a stale cache entry whose parent no longer resolves is
+  -- dropped and the prefix traversed from the root, as one transition
+  | "wdrnew", [] => ({ st with walkDR := ⟨Fog.init, [], []⟩ }, "ok")
+  | "wdrcnew", [] => ({ st with walkDR := { st.walkDR with cache := [] } }, "ok")
+  | "wdrrefog", [] => ({ st with walkDR := { st.walkDR with fog := Fog.init, met := [] } }, "ok")
+  | "wdstepr", [tg, p, useCache] =>
+    match parseTarget tg, parsePath p with
+    | some tg, some p =>
+      let T := w.trieOf tg
+      let cs : HexD.CStateD := if useCache == "1" then st.walkDR else { st.walkDR with cache := [] }
+      match HexD.cstepDR keccak w.base T.root cs p with
+      | .error (.missing h used) => (st, s!"exn MissingTraversalNode {toHex h} {pathStr used}")
+      | .error _ => (st, "exn Invalid")
+      | .ok none => (st, "none")
+      | .ok (some cs') =>
+        let cs'' : HexD.CStateD := if useCache == "1" then cs' else { cs' with cache := st.walkDR.cache }
+        let showF (f : Fog.Fog) := if f.isEmpty then "-" else ",".intercalate (f.map fun q => if q.isEmpty then "_" else pathStr q)
+        let newMet := if cs'.met.length > cs.met.length then
+            match cs'.met.head? with
+            | some (k, v) => s!"{pathStr k}={toHex v}"
+            | none => "-"
+          else "-"
+        let ckeys := ",".intercalate ((cs''.cache.map fun e => if e.1.isEmpty then "_" else pathStr e.1).toArray.qsort (· < ·)).toList
+        ({ st with walkDR := cs'' }, s!"fog {showF cs'.fog} met {newMet} cache {if ckeys.isEmpty then "-" else ckeys}")
     | _, _ => bad
   | "wnew", [] => ({ st with walk := ⟨Fog.init, [], []⟩ }, "ok")
   | "wcnew", [] => ({ st with walk := { st.walk with cache := [] } }, "ok")
